@@ -375,3 +375,153 @@ Proof.
   destruct (li_chans li) as [[|c cs]|] eqn:Ec; rewrite ?Er; try reflexivity.
   cbn [li_records]. apply upd_recs_blocks.
 Qed.
+
+(* ------------------------------------------------------------------ read_psd_py only rejects more than read_psd *)
+Ltac refeed :=
+  repeat match goal with
+         | E : ?r = Ok _ |- context [bind ?r _] => rewrite E; cbn [bind fst snd]
+         end.
+
+Lemma read_tagged_block_py_ref v pad s r :
+  read_tagged_block_py v pad s = Ok r -> read_tagged_block v pad s = Ok r.
+Proof.
+  unfold read_tagged_block_py. intros H. dres H as sg s1 E1.
+  destruct (negb (memz sg model_tb_sigs)) eqn:Es.
+  - inversion H; subst. unfold read_tagged_block. rewrite E1. cbn [bind]. now rewrite Es.
+  - dres H as key s2 E2. dres H as n s3 E3. destruct (ovf n); [discriminate|exact H].
+Qed.
+Lemma read_tagged_items_py_ref v pad : forall fuel budget s r,
+  read_tagged_items_py fuel v pad budget s = Ok r -> read_tagged_items fuel v pad budget s = Ok r.
+Proof.
+  induction fuel as [|f IH]; intros budget s r H; cbn [read_tagged_items_py] in H; [discriminate|].
+  cbn [read_tagged_items].
+  destruct (negb (is_readable 8 s)); [exact H|].
+  destruct (match budget with Some b => b <=? 0 | None => false end); [exact H|].
+  dres1 H as o Eo. rewrite (read_tagged_block_py_ref _ _ _ _ Eo). cbn [bind].
+  destruct o as [[b s1]|]; [|exact H].
+  dres H as bs s2 Eb. rewrite (IH _ _ _ Eb). cbn [bind]. exact H.
+Qed.
+Lemma read_tagged_blocks_py_ref v pad budget s r :
+  read_tagged_blocks_py v pad budget s = Ok r -> read_tagged_blocks v pad budget s = Ok r.
+Proof.
+  unfold read_tagged_blocks_py, read_tagged_blocks. intros H. dres H as items s1 E.
+  rewrite (read_tagged_items_py_ref _ _ _ _ _ _ E). cbn [bind]. exact H.
+Qed.
+Lemma read_channel_data_py_ref n s r : read_channel_data_py n s = Ok r -> read_channel_data n s = Ok r.
+Proof.
+  unfold read_channel_data_py. intros H. dres1 H as r0 E. destruct (ovf n); [discriminate|]. now inversion H.
+Qed.
+Lemma read_n_ref {A} (rd' rd : stream -> res (A * stream)) :
+  (forall s r, rd' s = Ok r -> rd s = Ok r) ->
+  forall n s r, read_n n rd' s = Ok r -> read_n n rd s = Ok r.
+Proof.
+  intros Hr. induction n as [|n IH]; intros s r H; cbn [read_n] in *; [exact H|].
+  dres H as a s1 Ea. dres H as l s2 El. rewrite (Hr _ _ Ea). cbn [bind]. rewrite (IH _ _ El). exact H.
+Qed.
+
+Section RefinesPy.
+  Variable dec_s : list Z -> res (list Z).
+
+  Lemma read_record_py_ref v s r : read_record_py dec_s v s = Ok r -> read_record dec_s v s = Ok r.
+  Proof.
+    unfold read_record_py. intros H.
+    dres H as top s1 E1. dres H as lft s2 E2. dres H as bottom s3 E3. dres H as rgt s4 E4.
+    dres H as nch s5 E5. dres H as chans s6 E6. dres H as sg s7 E7. dres H as blend s8 E8.
+    dres H as opacity s9 E9. dres H as clip s10 E10. dres H as fl s11 E11. dres H as data s12 E12.
+    dres H as mask f1 F1. dres H as ranges f2 F2. dres H as name f3 F3. dres H as blocks f4 F4.
+    apply read_tagged_blocks_py_ref in F4. unfold read_record. refeed. exact H.
+  Qed.
+  Lemma read_channel_list_py_ref : forall cis s r,
+    read_channel_list_py cis s = Ok r -> read_channel_list cis s = Ok r.
+  Proof.
+    induction cis as [|ci cis IH]; intros s r H; cbn [read_channel_list_py read_channel_list] in *; [exact H|].
+    dres H as c s1 Ec. dres H as l s2 El. rewrite (read_channel_data_py_ref _ _ _ Ec). cbn [bind].
+    rewrite (IH _ _ El). exact H.
+  Qed.
+  Lemma read_channel_lists_py_ref : forall rs s r,
+    read_channel_lists_py rs s = Ok r -> read_channel_lists rs s = Ok r.
+  Proof.
+    induction rs as [|x rs IH]; intros s r H; cbn [read_channel_lists_py read_channel_lists] in *; [exact H|].
+    dres H as l s1 El. dres H as ls s2 Els. rewrite (read_channel_list_py_ref _ _ _ El). cbn [bind].
+    rewrite (IH _ _ Els). exact H.
+  Qed.
+  Lemma read_li_body_py_ref v s r : read_li_body_py dec_s v s = Ok r -> read_li_body dec_s v s = Ok r.
+  Proof.
+    unfold read_li_body_py. intros H. dres H as count s1 Ec. dres H as recs s2 Er.
+    dres H as chans s3 Eh.
+    apply (read_n_ref _ _ (read_record_py_ref v)) in Er. apply read_channel_lists_py_ref in Eh.
+    unfold read_li_body. refeed. exact H.
+  Qed.
+  Lemma read_layer_info_py_ref total v s r :
+    read_layer_info_py dec_s total v s = Ok r -> read_layer_info dec_s v s = Ok r.
+  Proof.
+    unfold read_layer_info_py. intros H. dres1 H as nb En. dres H as length s1 E1.
+    unfold read_layer_info. refeed.
+    destruct (length =? 0); [exact H|]. dres H as li s2 Eb. apply read_li_body_py_ref in Eb. refeed.
+    destruct (len s1 - len s2 <=? length); [|exact H]. destruct (ovf _); [discriminate|exact H].
+  Qed.
+  Lemma read_lami_py_ref total v s r : read_lami_py dec_s total v s = Ok r -> read_lami dec_s v s = Ok r.
+  Proof.
+    unfold read_lami_py. intros H. dres1 H as nb En. dres H as length s1 E1.
+    unfold read_lami. refeed.
+    destruct (length =? 0); [exact H|]. dres1 H as l El.
+    destruct (ovf _); [discriminate|]. inversion H; subst. clear H.
+    unfold read_lami_body_py in El.
+    dres El as li s2 Eli. dres El as g s3 Eg. dres1 El as tb Et. inversion El; subst. clear El.
+    apply read_layer_info_py_ref in Eli. unfold read_lami_body. refeed.
+    destruct (is_readable 1 s3).
+    - dres Et as bs s5 Eb. apply read_tagged_blocks_py_ref in Eb. refeed.
+      inversion Et; subst. reflexivity.
+    - inversion Et; subst. reflexivity.
+  Qed.
+  Theorem read_psd_py_refines b d : read_psd_py dec_s b = Ok d -> read_psd dec_s b = Ok d.
+  Proof.
+    unfold read_psd_py. intros H. dres H as h s1 Eh. dres H as cmd s2 Ec. dres H as rs s3 Er.
+    dres H as l s4 El. apply read_lami_py_ref in El. unfold read_psd. refeed. exact H.
+  Qed.
+End RefinesPy.
+
+(* ------------------------------------------------------------------ stage 2: payload classes of Psd/Leaf.v *)
+From PsdV Require Import Psd.Leaf Psd.LeafProofs.
+Lemma read_upto_len n s : 0 <= n -> len (fst (read_upto n s)) <= n.
+Proof.
+  intros Hn. unfold read_upto. destruct (n <? 0) eqn:E; [lia|]. cbn [fst].
+  unfold len. rewrite firstn_length. pose proof (len_nonneg s). unfold len in *. lia.
+Qed.
+Lemma read_leaf_wf k b l :
+  read_leaf k b = Ok l -> kind_of l = k /\ (leaf_guard l = true -> wf_leaf l = true).
+Proof.
+  destruct k; cbn [read_leaf]; intros H.
+  - dres1 H as v E. inversion H; subst. auto.
+  - dres H as v s1 E. inversion H; subst. auto.
+  - dres1 H as v E. inversion H; subst. auto.
+  - dres1 H as v E. inversion H; subst. auto.
+  - dres H as u s1 E. inversion H; subst. auto.
+  - inversion H; subst. auto.
+  - injection H as <-. split; [reflexivity|]. intros _. cbn [wf_leaf]. apply Z.leb_le.
+    pose proof (read_upto_len 4 b ltac:(lia)) as Hl. exact Hl.
+  - dres H as kind s1 E1. destruct (negb (memz kind model_section_dividers)) eqn:Ek; [discriminate|].
+    apply negb_false_iff in Ek. dres H as sb s2 E2. dres H as sub s3 E3. inversion H; subst. clear H.
+    split; [reflexivity|]. cbn [wf_leaf]. rewrite Ek. cbn [andb].
+    destruct (is_readable 8 s1).
+    + dres E2 as sg a Ea. destruct (negb (sg =? sig_8BIM)) eqn:Es; [discriminate|].
+      dres E2 as bm a2 Eb. destruct (negb (memz bm model_blend_modes)) eqn:Em; [discriminate|].
+      inversion E2; subst. cbn [option_map fst snd]. apply negb_false_iff in Es, Em. now rewrite Es, Em.
+    + inversion E2; subst. cbn [option_map]. destruct sub; [discriminate|reflexivity].
+  - dres H as v s1 E1. dres H as x y E2. destruct (memz v model_sheet_colors) eqn:Em; [|discriminate].
+    inversion H; subst. auto.
+  - dres H as v s1 E. inversion H; subst. auto.
+  - dres1 H as v E. inversion H; subst. auto.
+  - dres H as c s1 E. inversion H; subst. auto.
+  - dres H as c s1 E. dres H as op s2 E2. inversion H; subst. auto.
+  - dres H as v s1 E. inversion H; subst. auto.
+  - dres H as v s1 E. inversion H; subst. auto.
+  - dres H as v s1 E. inversion H; subst. auto.
+Qed.
+Lemma leaf_resave k b l pad s n :
+  0 < pad -> read_leaf k b = Ok l -> leaf_guard l = true -> write_leaf pad l = Ok (s, n) ->
+  read_leaf k s = Ok l.
+Proof.
+  intros Hp Hr Hg Hw. destruct (read_leaf_wf _ _ _ Hr) as [Hk Hwf]. rewrite <- Hk.
+  exact (leaf_rt pad l s n Hp (Hwf Hg) Hw).
+Qed.
